@@ -291,6 +291,10 @@ def _data_paths(run, P):
                 seen_other.append(d)
         if ok:
             run.holds("IDX/data-follow-faces", c, where(f), "for 'exclude' the values of the antimeridian faces recorded by this conversion are removed")
+        elif seen_other and any(isinstance(x, ast.Attribute) and x.attr == "antimeridian_face_indices" for d_ in seen_other if len(d_.args) >= 2 for e in ldefs.closure(d_.args[1])[0] for x in ast.walk(e)):
+            run.violation("IDX/data-follow-faces", c, where(f, seen_other[0]), f"{norm(seen_other[0])[:80]}: the values removed are those of the GRID's antimeridian faces (Grid.antimeridian_face_indices, computed on the "
+                          f"unprojected default polygons), not of the faces THIS conversion removed ({slot}['antimeridian_face_indices'], which depends on the projection's central longitude): "
+                          "with a projection the data and the polygons no longer correspond")
         elif seen_other:
             run.incomplete("IDX/data-follow-faces", c, where(f, seen_other[0]), f"{norm(seen_other[0])[:80]}: a deletion from the data that is not recognised as np.delete(self.values, <slot>['antimeridian_face_indices']) under periodic_elements == 'exclude'")
         else:
